@@ -171,7 +171,17 @@ def strategy(tier):
             # spelled And / But
             spell = [draw(st.sampled_from(['', '', 'And', 'But'])) for _ in steps]
             scenarios.append({'name': 'S%d' % i, 'steps': steps, 'spell': spell})
-        return {'spec': spec, 'scenarios': scenarios,
+        # Background section (30 %): given steps behave runs before every scenario; "I reproduce"
+        # replays the steps of the named scenario only
+        background = []
+        if draw(st.floats(0, 1)) < 0.3:
+            for _ in range(draw(st.integers(1, 2))):
+                if draw(st.booleans()):
+                    background.append({'k': 'send', 'name': draw(st.sampled_from(events))})
+                else:
+                    background.append({'k': 'wait', 'seconds': draw(st.sampled_from([1, 2, 5])),
+                                       'plural': True})
+        return {'spec': spec, 'scenarios': scenarios, 'background': background,
                 'cli': draw(st.floats(0, 1)) < 0.08}
     return cases()
 
@@ -227,8 +237,13 @@ def then_text(t):
     raise ValueError(k)
 
 
-def feature_text(scenarios):
+def feature_text(scenarios, background=()):
     lines = ['Feature: generated', '']
+    if background:
+        lines.append('  Background:')
+        for j, a in enumerate(background):
+            lines.append('    %s %s' % ('Given' if j == 0 else 'And', act_text(a)[0]))
+        lines.append('')
     for sc in scenarios:
         lines.append('  Scenario: %s' % sc['name'])
         spell = sc.get('spell') or []
@@ -333,11 +348,18 @@ class Sim:
         raise ValueError(k)
 
 
-def expected_statuses(sc, scenario, scenarios):
+def expected_statuses(sc, scenario, scenarios, background=()):
     """list of 'passed' | 'failed' | 'skipped' for the top-level steps, plus Sim"""
     sim = Sim(sc, scenarios)
     out = []
     failed = False
+    for a in background:
+        try:
+            sim.act(a, False)
+        except Exception:
+            # a Background step that fails: every step of the scenario is skipped
+            sim.background_failed = True
+            return ['skipped'] * len(scenario['steps']), sim
     for kw, s in scenario['steps']:
         if failed:
             out.append('skipped')
@@ -406,7 +428,7 @@ def oracle(case):
     from sismic import testing
     spec = case['spec']
     sc = to_statechart(spec)
-    text = feature_text(case['scenarios'])
+    text = feature_text(case['scenarios'], case.get('background') or ())
     viol, labels, keys = [], {}, []
     try:
         got = run_behave(sc, spec, text, case.get('cli'))
@@ -416,13 +438,23 @@ def oracle(case):
                                            'cli': bool(case.get('cli'))}}],
                 'labels': labels, 'keys': keys}
     labels['feature files'] = 1
+    if case.get('background'):
+        labels['feature files with a Background section'] = 1
     if case.get('cli'):
         labels['feature files run through the sismic-bdd entry point'] = 1
     h = sha(spec)
     sample = None
     for scn in case['scenarios']:
-        exp, sim = expected_statuses(sc, scn, case['scenarios'])
+        exp, sim = expected_statuses(sc, scn, case['scenarios'], case.get('background') or ())
         rep = got.get(scn['name'])
+        nb = len(case.get('background') or ())
+        if rep is not None and nb:
+            # behave reports the Background steps at the head of every scenario
+            if (rep[:nb] != ['passed'] * nb) != bool(getattr(sim, 'background_failed', False)):
+                viol.append({'prop': PROP, 'kind': 'background-step-not-passed', 'step': None,
+                             'detail': {'scenario': scn['name'], 'reported': rep}})
+                break
+            rep = rep[nb:]
         labels['scenarios'] = labels.get('scenarios', 0) + 1
         if rep is None or len(rep) != len(exp):
             viol.append({'prop': PROP, 'kind': 'scenario-not-reported', 'step': None,
